@@ -174,6 +174,12 @@ impl<'a> Judge<'a> {
             Ok(back) => return cx.machinery_error(format!("IR does not survive printing: {sdl:?} reparsed prints {:?}", ir::sdl_of(&back))),
             Err(e) => return cx.machinery_error(format!("printed IR does not parse: {e}: {sdl:?}")),
         }
+        if std::env::var_os("C33_DRY").is_some() {
+            // development aid: size of the space without touching the code under test
+            cx.eval();
+            cx.nontrivial(h);
+            return;
+        }
         let obs = observe(irs);
         let rule0 = obs.reference.first().map(|e| e.rule);
         // column of the operator table: 0 agreed valid, 1 agreed invalid, 2 accepts invalid, 3 rejects valid
@@ -291,8 +297,8 @@ fn run(cx: &Cx) {
     let judge = Judge::new(cx);
 
     // ---------------- (i) small scope
-    let scfg = if quick { small::SmallCfg { max_defs: 4, exh_defs: 2 } } else { small::SmallCfg { max_defs: 5, exh_defs: 3 } };
-    let sbounds: [u32; 4] = if quick { [2, 1, 1, 0] } else { [2, 2, 1, 0] };
+    let scfg = if quick { small::SmallCfg { max_defs: 4, exh_defs: 2, budget: [2, 1, 0] } } else { small::SmallCfg { max_defs: 5, exh_defs: 3, budget: [2, 2, 1] } };
+    let sbounds: [u32; 4] = [scfg.budget[0], scfg.budget[1], scfg.budget[2], 0];
     let st1 = explore(
         &ExploreCfg::bounds(sbounds),
         &|ch: &mut Chooser| {
@@ -350,17 +356,17 @@ fn run(cx: &Cx) {
         cx.machinery_error("no built schema ever answered an operation without errors");
     }
     cx.rule(&format!(
-        "case = one type system (distinct by canonical SDL), registered through the dynamic API and finished. (i) small scope: Query (always the query root) plus ≤ {} further definitions from {{A,B: object; I,J: interface; U: union; E: enum; In: input}}; exhaustive structure (which names, implements among defined interfaces, union members among defined objects, 1–2 fields f,g per type); field types from {{Int, Int!, [Int], A, A!, I, U, In, In!, [In!]}} over defined names, exhaustive for ≤ {} definitions and ≤ {} deviations from Int above; ≤ {} argument(s) from {{x:Int, x:Int!, y:Int, y:Int!, x:In, x:A}}; ≤ {} oddity (no fields/values, interface implementing itself, non-object union member, @oneOf). (ii) 4 valid exemplars × every sequence of ≤ {} edit(s) from {} operators at every applicable site. Non-trivial = type systems on which finish() and the reference validator agree (both verdicts must occur).",
+        "case = one type system (distinct by canonical SDL), registered through the dynamic API and finished. (i) small scope: Query (always the query root) plus ≤ {} further definitions from {{A,B: object; I,J: interface; U: union; E: enum; In: input}}; exhaustive structure (which names, implements among defined interfaces, union members among defined objects); decorations of the plain system (fields f: Int, g: Int everywhere): field type from {{Int, Int!, [Int], A, A!, I, U, In, In!, [In!]}} over defined names, one argument from {{x:Int, x:Int!, y:Int, y:Int!, x:In, x:A}}, one/no field, no enum value, interface implementing itself, non-object union member, @oneOf — ≤ {} decorations with ≤ 3 definitions, ≤ {} with 4, ≤ {} with 5; all field-type combinations exhaustively with ≤ {} definitions. (ii) 4 valid exemplars × every sequence of ≤ {} edit(s) from {} operators at every applicable site. Non-trivial = type systems on which finish() and the reference validator agree (both verdicts must occur).",
         scfg.max_defs - 1,
+        scfg.budget[0],
+        scfg.budget[1],
+        if scfg.max_defs >= 5 { scfg.budget[2] } else { 0 },
         scfg.exh_defs,
-        sbounds[0],
-        sbounds[1],
-        sbounds[2],
         max_edits,
         ops_seen.lock().unwrap().len()
     ));
     cx.exhaustive(!st1.capped && !st2.capped);
-    cx.extra("small_scope", json!({"choice_sequences": st1.executions, "max_definitions": scfg.max_defs, "types_exhaustive_up_to_definitions": scfg.exh_defs, "dev_bounds": {"field_types": sbounds[0], "arguments": sbounds[1], "oddities": sbounds[2]}}));
+    cx.extra("small_scope", json!({"choice_sequences": st1.executions, "max_definitions": scfg.max_defs, "types_exhaustive_up_to_definitions": scfg.exh_defs, "decoration_budget": {"up_to_3_definitions": scfg.budget[0], "4_definitions": scfg.budget[1], "5_definitions": scfg.budget[2]}}));
     cx.extra("exemplar_edits", json!({"choice_sequences": st2.executions, "max_edits": max_edits, "single_edits_per_operator": *ops_seen.lock().unwrap()}));
     cx.extra("duplicate_type_systems_skipped", json!(t.duplicates));
     cx.extra("unrepresentable_skipped", json!(t.unrepresentable));
